@@ -75,7 +75,11 @@ func Main(pre *dev.Dev) {
 	case "c06":
 		var job C06Job
 		readJSON(in, &job)
-		writeJSON(out, RunC06(&job, install()))
+		var fresh func() *dev.Dev
+		if pre == nil {
+			fresh = install
+		}
+		writeJSON(out, RunC06(&job, install(), fresh))
 	case "c09":
 		var job struct {
 			C09Job
